@@ -171,14 +171,13 @@ def run(ctx):
         ("GenLz", dict(module="GenLz", cfg="GenLz.cfg" if quick else "GenLzT.cfg", workers=1, timeout=900)),
         ("GenLzRaw", dict(module="GenLz", cfg="GenLzRaw.cfg", workers=1, timeout=900)),
         ("EvalLzDict", dict(module="EvalLzDict", workers=1, timeout=300)),
-        ("GenLzma2", dict(module="MCLzma2", cfg="GenLzma2.cfg", workers=1, timeout=900)),
+        ("GenLzma2", dict(module="MCLzma2", cfg="GenLzma2.cfg" if quick else "GenLzma2T.cfg", workers=1, timeout=900)),
     ]
     broken = [("MCLz", "MCLzVar_dist_off_by_one.cfg", {}), ("MCLz", "MCLzVar_no_wrap_correction.cfg", {}),
               ("MCLzma2", "MCLzma2Var_no_need_props.cfg", {}), ("MCLzma2", "MCLzma2Var_no_need_dict.cfg", {}),
               ("MCXzStreamDec", "MCXzStreamDecVar_no_flags_compare.cfg", env), ("MCXzStreamDec", "MCXzStreamDecVar_index_sums_only.cfg", env),
               ("MCXzStreamDec", "MCXzStreamDecVar_size_valid_misuse.cfg", env)]
-    if not quick:
-        broken.append(("MCLzma2", "MCLzma2Var_unc_keeps_props.cfg", {}))     # needs 4 chunks to show
+    broken.append(("MCLzma2", "MCLzma2Var_unc_keeps_props.cfg", {}))     # needs 4 chunks to show
     for mod, cfg, e in broken:
         jobs.append(("broken:" + cfg, dict(module=mod, cfg=cfg, workers=2, timeout=900, env=e)))
     # (V) lift tests/files into abstract files for the model (pure Python, glue only)
@@ -229,7 +228,7 @@ def run(ctx):
     n = run_phase(ctx, "lz", lz_args, None, so, shards=NS)
     ctx.log("Lz: %d executions on %d symbol sequences + %d table rows (LZMA2 chunks, raw LZMA1, .lzma; one-shot and byte-wise)" % (n, len(pk) + len(pr), len(rows)))
     l2 = plans_from_tlc(res["GenLzma2"].out)
-    if len(l2) < 1000:
+    if len(l2) < 400:
         raise MachineryError("LZMA2 plan generation produced only %d plans" % len(l2))
     uniq = collections.OrderedDict()
     for p in l2:
